@@ -182,8 +182,70 @@ def graph_rt(tier):
                       "small-scope exhaustive: streams of 6 instructions, every subset of <= 4 (thorough: all 6) block starts in every insertion order; distinct = different (stream, order) pairs", tier)
 
 
+def _lsweep_rt(tier, seed, only=None):
+    """linear sweep: the blocks yielded by lsweep.iterblocks partition the swept instructions, for raw
+    buffers made of decodable instructions and EVERY prefix of them (so that a buffer also ends right
+    after a branch, and after a delayed branch without its delay slot)"""
+    import importlib
+    import amoco
+    from amoco.sa import lsweep
+    from contracts.rt import corpus, decode, sig
+    from contracts.decoder import cpus
+    rng = random.Random("lsweep/%s" % seed)
+    fails, samples, distinct = [], [], set()
+    n = 0
+    allc = dict((mn, d) for mn, k, d in cpus())
+    for mn in ("amoco.arch.sparc.cpu_v8", "amoco.arch.mips.cpu_r3000LE", "amoco.arch.x86.cpu_x86", "amoco.arch.riscv.cpu_rv32i"):
+        if mn not in allc:
+            continue
+        cpu = importlib.import_module(mn)
+        d = allc[mn]
+        L = corpus(mn, d, 0, 1, rng, 0)
+        pool = []
+        for b in rng.sample(L, len(L)):
+            st, desc, i = decode(d, b)
+            if st == "ok" and i is not None and len(bytes(i.bytes)) == i.length:
+                pool.append((bytes(i.bytes), i.mnemonic, bool(i.misc.get("delayed")), i.type))
+            if len(pool) >= 400:
+                break
+        branches = [x for x in pool if x[3] == 1 or x[2]]      # type_control_flow or delayed
+        for _ in range(6 if tier == "quick" else 80):
+            seq = [rng.choice(pool if rng.random() < 0.6 or not branches else branches) for _ in range(rng.randint(3, 9))]
+            for k in range(1, len(seq) + 1):
+                if only is not None and (only["cpu"] != mn or only["code"] != [x[0].hex() for x in seq[:k]]):
+                    continue
+                buf = b"".join(x[0] for x in seq[:k])
+                n += 1
+                distinct.add((mn, tuple(x[1] for x in seq[:k])))
+                inp = {"cpu": mn, "code": [x[0].hex() for x in seq[:k]]}
+                try:
+                    p = amoco.load_program(buf, cpu=cpu)
+                    z = lsweep(p)
+                    swept = [(i.address.v, bytes(i.bytes)) for i in z.sequence(0)]
+                    blocks = list(z.iterblocks(0))
+                except Exception as ex:
+                    fails.append((dict(inp, sig="lsweep:raise:" + sig(ex)), "sweeping %s raised %s" % ([x[1] for x in seq[:k]], sig(ex))))
+                    continue
+                got = [(i.address.v, bytes(i.bytes)) for b in blocks for i in b.instr]
+                if got != swept:
+                    missing = [hex(a) for a, _ in swept if (a, _) not in got]
+                    fails.append((dict(inp, sig="lsweep:partition"), "the blocks of %s do not partition the swept instructions (%d swept, %d in blocks, missing %s)" % ([x[1] for x in seq[:k]], len(swept), len(got), missing[:3])))
+                elif any(len(b.instr) == 0 for b in blocks):
+                    fails.append((dict(inp, sig="lsweep:empty-block"), "an empty block was yielded for %s" % [x[1] for x in seq[:k]]))
+                elif len(samples) < 3 and k == len(seq):
+                    samples.append({"cpu": mn, "mnemonics": [x[1] for x in seq], "blocks": [len(b.instr) for b in blocks]})
+    return n, fails, samples, len(distinct)
+
+
+def lsweep_rt(tier):
+    return _RtGeneric("K18/lsweep/partition", ["C18"], ["amoco.sa.lsweep:lsweep.sequence", "amoco.sa.lsweep:lsweep.iterblocks", "amoco.code:block.__init__", "amoco.system.core:CoreExec.read_instruction"],
+                      _lsweep_rt, ("contracts.cfg:lsweep_rt", {"tier": tier}),
+                      "raw buffers of 3-9 decodable instructions (SPARC, MIPS, x86, RV32I; branches over-represented) and every prefix of them; distinct = different mnemonic sequences", tier)
+
+
 def obligations(prop, tier, seed):
     obs = []
+    obs.append(lsweep_rt(tier))
     for k in (1, 2, 3, 4):
         obs.append(block_ops(k=k))
     obs.append(graph_rt(tier))
